@@ -131,6 +131,7 @@ Inductive cstmt :=
 | SSwitch (k : string) (e : cexpr) (cases : list (list Z * list cstmt)) (default : list cstmt)
     (* the structured form only: every case body ends in break or return (stacked labels share one body) *)
 | SBreak
+| SZero (x : string)          (* memset(p, 0, sizeof *p) / memset(&x, 0, sizeof x): every lvalue whose text starts with x reads 0 *)
 | SClobber (x : string)       (* a callee was handed &x (or the local array x) through a pointer to non-const: x and its parts are unknown now *)
 | SOther (what : string).
 
@@ -141,6 +142,8 @@ Definition upd (rho : env) (x : string) (v : Z) : env := fun y => if String.eqb 
 Fixpoint primes (n : nat) : string := match n with O => EmptyString | S k => String "'"%char (primes k) end.
 Definition clobber (rho : env) (n : nat) (x : string) : env :=
   fun y => if String.prefix x y then rho ("havoc:" ++ y ++ primes n)%string else rho y.
+
+Definition zeroed (rho : env) (x : string) : env := fun y => if String.prefix x y then 0 else rho y.
 
 Definition event := (string * list Z)%type.           (* routine called, evaluated arguments *)
 
@@ -200,6 +203,7 @@ Fixpoint exec (fuel : nat) (m : memory) (rho : env) (tr : list event) (l : list 
                       | o => o end
           | None => Stuck k end
       | SBreak => Broke rho tr
+      | SZero x => exec f m (zeroed rho x) tr r
       | SClobber x => exec f m (clobber rho (length tr) x) tr r
       | SRet k None => Returned None rho tr
       | SRet k (Some e) => match ceval rho m e with Some v => Returned (Some v) rho tr | None => Stuck k end
